@@ -142,7 +142,7 @@ func (c *Ctx) Violation(kind, msg string, cse interface{}) {
 	if !c.Replay {
 		rf := ReplayFile{Property: c.Prop, Kind: kind, Msg: msg, Seed: c.Seed, Tier: c.Tier, Case: b}
 		out, _ := json.MarshalIndent(rf, "", " ")
-		dir := filepath.Join(VerifDir(), "replays")
+		dir := filepath.Join(OutDir(), "replays")
 		os.MkdirAll(dir, 0o777)
 		path = filepath.Join(dir, fmt.Sprintf("%s-%s.json", c.Prop, HashString(kind+string(b))))
 		os.WriteFile(path, out, 0o666)
